@@ -191,4 +191,33 @@ def method_override(m, meta):
                         problems.append({"style": cls.__name__, "own method": own, "observed": "render without override differs"})
         finally:
             cls._supported = saved
-    return {"reproduced": bool(problems), "input": "renders with / without a per-call method override in three spellings", "observed": problems[:3]}
+    # an animated draw() with a per-call method: every frame is rendered with that method, whatever the image's own one is
+    import io, sys, re
+    from replay.C06 import _gif, _Tty
+    import term_image.image.common as common
+    common.time.sleep = lambda s: None
+    saved = (ITerm2Image._supported, ITerm2Image._TERM)
+    ITerm2Image._supported = True
+    try:
+        for term in ("iterm2", "wezterm"):
+            ITerm2Image._TERM = term
+            for own in ("anim", "whole", "lines"):
+                for over in ("lines", "whole"):
+                    image = ITerm2Image(_gif(3))
+                    image.set_size(height=3)
+                    image.set_render_method(own)
+                    buf = _Tty()
+                    old = sys.stdout
+                    sys.stdout = buf
+                    try:
+                        image.draw(repeat=1, method=over)
+                    finally:
+                        sys.stdout = old
+                    n_images = len(re.findall(r"\x1b\]1337;File=", buf.getvalue()))
+                    want = 3 * (3 if over == "lines" else 1)            # LINES: one inline image per line and frame; WHOLE: one per frame
+                    if n_images != want:
+                        problems.append({"style": "ITerm2Image", "terminal": term, "image's own method": own, "draw(method=...)": over,
+                                         "inline images sent for 3 frames of 3 lines": n_images, "expected": want})
+    finally:
+        ITerm2Image._supported, ITerm2Image._TERM = saved
+    return {"reproduced": bool(problems), "input": "renders with / without a per-call method override in three spellings; animated draws with one", "observed": problems[:3]}
